@@ -92,7 +92,7 @@ def parents (p : Path) : List Path := (List.range p.length).reverse.map (fun n =
 
 /-! ### primitive attempts -/
 
-inductive PK | rmtree | rm | mk | wr | chmod | utime | mvFrom | mvTo
+inductive PK | rmtree | rm | mk | wr | chmod | utime | mvFrom | mvTo | symlink
   deriving DecidableEq, Repr
 
 structure Prim where
@@ -109,11 +109,16 @@ def mkdirP (p : Path) : Nat → List Prim
   | k + 1 => ⟨.mk, p⟩ :: mkdirP p.dropLast k ++ [⟨.mk, p⟩]
 
 /-- listing of a source tree in the order `shutil.copytree` walks it
-    (0 = file, 1 = enter directory, 2 = leave directory) and the order in which
-    `dst.rglob("*")` yields the copies (for `touch`). -/
+    (0 = file, 1 = enter directory, 2 = leave directory, 3 = entry that cannot be read: a
+    dangling symbolic link; a symbolic link to a file / directory is listed as what it points to,
+    which is how `os.scandir` + `is_dir()` see it), the order in which `dst.rglob("*")` yields the
+    copies (for `touch`), and the symbolic links among the entries of the source tree with the
+    physical path each one points to (any path at all: inside the tree, elsewhere in the project,
+    anywhere on disk). -/
 structure Tree where
   walk : List (Nat × Str)
   touch : List Str
+  links : List (Str × Path) := []
   deriving Repr
 
 def walkOps (dst : Path) : List (Nat × Str) → List Prim
@@ -121,11 +126,59 @@ def walkOps (dst : Path) : List (Nat × Str) → List Prim
   | (k, rel) :: r =>
     (if k = 0 then [⟨.wr, sub dst rel⟩, ⟨.chmod, sub dst rel⟩]
      else if k = 1 then [⟨.mk, sub dst rel⟩]
-     else [⟨.utime, sub dst rel⟩, ⟨.chmod, sub dst rel⟩]) ++ walkOps dst r
+     else if k = 2 then [⟨.utime, sub dst rel⟩, ⟨.chmod, sub dst rel⟩]
+     else []) ++ walkOps dst r
 
-/-- `ford.output.copytree(src, dst)` when `src` is readable and `dst` does not exist -/
+/-- `shutil.copytree` collects the entries it could not copy and raises `shutil.Error` *after*
+    everything else has been copied (unless dangling links are ignored) -/
+def copyFails (t : Tree) : Bool :=
+  !Generated.C19.copytreeIgnoreDangling && t.walk.any (fun e => e.1 = 3)
+
+/-- `ford.output.copytree(src, dst)` with links dereferenced (`symlinks=False`): the copy holds
+    regular files and directories only, whatever the links point to; FORD's `touch` pass over the
+    copy is skipped when `shutil.copytree` raised. -/
+def copyTreeDeref (dst : Path) (t : Tree) : List Prim :=
+  ⟨.mk, dst⟩ :: walkOps dst t.walk ++ [⟨.utime, dst⟩, ⟨.chmod, dst⟩] ++
+  (if copyFails t then [] else t.touch.map (fun r => ⟨.utime, sub dst r⟩))
+
+/-- the listing is coherent: what `rglob` finds in the copy are the files and directories of the
+    walk, and every directory that is left has been entered -/
+def treeWf (t : Tree) : Bool :=
+  t.touch.all (fun r => t.walk.contains (0, r) || t.walk.contains (1, r)) &&
+  t.walk.all (fun e => e.1 != 2 || t.walk.contains (1, e.2))
+
+def isLinkEntry (t : Tree) (rel : Str) : Bool := (t.links.lookup rel).isSome
+
+/-- the entry lies below a directory entry that is a symbolic link -/
+def belowLink (t : Tree) (rel : Str) : Bool := t.links.any (fun l => (l.1 ++ ['/']).isPrefixOf rel)
+
+def walkOpsKeep (dst : Path) (t : Tree) : List (Nat × Str) → List Prim
+  | [] => []
+  | (k, rel) :: r =>
+    (if belowLink t rel then []
+     else if isLinkEntry t rel then (if k = 2 then [] else [⟨.symlink, sub dst rel⟩])
+     else if k = 0 then [⟨.wr, sub dst rel⟩, ⟨.chmod, sub dst rel⟩]
+     else if k = 1 then [⟨.mk, sub dst rel⟩]
+     else if k = 2 then [⟨.utime, sub dst rel⟩, ⟨.chmod, sub dst rel⟩]
+     else []) ++ walkOpsKeep dst t r
+
+/-- `Path.touch()` follows symbolic links: `utime` on what the link points to, and when that does
+    not exist `open(O_CREAT)` creates it -/
+def touchKeep (dst : Path) (t : Tree) (rel : Str) : List Prim :=
+  if belowLink t rel then []
+  else match t.links.lookup rel with
+    | some target => ⟨.utime, target⟩ :: (if t.walk.contains (3, rel) then [⟨.wr, target⟩] else [])
+    | none => [⟨.utime, sub dst rel⟩]
+
+/-- `ford.output.copytree(src, dst)` if `shutil.copytree` were told to keep links (`symlinks=True`) -/
+def copyTreeKeep (dst : Path) (t : Tree) : List Prim :=
+  ⟨.mk, dst⟩ :: walkOpsKeep dst t t.walk ++ [⟨.utime, dst⟩, ⟨.chmod, dst⟩] ++
+  (t.touch ++ (t.walk.filter (fun e => e.1 = 3)).map (·.2)).flatMap (touchKeep dst t)
+
+/-- `ford.output.copytree(src, dst)` when `src` is readable and `dst` does not exist; the keyword
+    arguments of its `shutil.copytree` call are read from the source (generated table) -/
 def copyTree (dst : Path) (t : Tree) : List Prim :=
-  ⟨.mk, dst⟩ :: walkOps dst t.walk ++ [⟨.utime, dst⟩, ⟨.chmod, dst⟩] ++ t.touch.map (fun r => ⟨.utime, sub dst r⟩)
+  if Generated.C19.copytreeSymlinks then copyTreeKeep dst t else copyTreeDeref dst t
 
 /-- `shutil.copy(src, dst_file)` -/
 def copyFile (dst : Path) : List Prim := [⟨.wr, dst⟩, ⟨.chmod, dst⟩]
@@ -184,7 +237,7 @@ structure Page where
 
 structure Site where
   libs : List Tree := []                  -- listings of `Generated.C19.libDirs` (css, js, webfonts) of the installation
-  searchTree : Tree := ⟨[], []⟩
+  searchTree : Tree := ⟨[], [], []⟩
   mediaTree : Option Tree := none         -- none: no media_dir / unreadable
   docs : List (Str × Str × Nat) := []     -- (get_dir(), entity name, homonym number)
   lists : List Str := []                  -- `out_page` of the list pages
@@ -208,13 +261,25 @@ def graphOps (g : Path) (name : Str) : List Prim :=
 
 def isProperPrefix (o p : Path) : Bool := o.isPrefixOf p && o.length < p.length
 
+/-- the guard of `PagetreePage.writeout`: `self.out_dir in target.parents`, `parents` as pathlib
+    defines it (component-wise, proper ancestors only) -/
+def guardAccepts (o dst : Path) : Bool := (parents dst).contains o
+
+/-- a path as the string the OS / `os.fspath` shows -/
+def pathStr (p : Path) : Str := if p = [] then ['/'] else p.flatMap (fun s => '/' :: s)
+
+/-- the tempting textual version of the guard: `str(target).startswith(str(out_dir))` -/
+def strPrefixGuard (o dst : Path) : Bool := (pathStr o).isPrefixOf (pathStr dst)
+
 /-- one page-level `copy_subdir` item; `created` are the directories made so far -/
 def pcopyOps (c : Cfg) (o : Path) (to : List Seg) (created : List Path) (pc : PCopy) : List Prim :=
   let dst := norm (joinRaw to pc.item)
-  if c.repaired && !isProperPrefix o dst then []
+  if c.repaired && !guardAccepts o dst then []        -- `if self.out_dir not in target.parents: continue`
   else match pc.tree with
     | none => []
-    | some t => if c.pre.contains dst || created.contains dst then [⟨.mk, dst⟩] else copyTree dst t
+    | some t =>
+      if (c.pre.contains dst || created.contains dst) && !Generated.C19.copytreeDirsExistOk then [⟨.mk, dst⟩]
+      else copyTree dst t
 
 def mkPaths (l : List Prim) : List Path := (l.filter (fun p => p.kind = .mk)).map (·.path)
 
